@@ -160,6 +160,8 @@ def dosini_cases(thorough):
         assert min(ws) >= 0
         for order in ('ascending', 'descending'):
             yield {'n': n, 'weights': ws, 'order': order, 'omit': []}
+        # every second stage also names a status executable
+        yield {'n': n, 'weights': ws, 'order': 'ascending', 'omit': [], 'executables': True}
         if n >= 3:
             # the sections of some stages are absent (their weight is missing)
             yield {'n': n, 'weights': ws, 'order': 'ascending', 'omit': [0]}
@@ -185,7 +187,10 @@ def check_dosini(col, c):
             idx.reverse()
         with open(os.path.join(pkg, 'conf', 'status.conf'), 'w') as f:
             for i in idx:
-                f.write('[STAGE%d]\nstage-weight=%r\n\n' % (i, c['weights'][i]))
+                f.write('[STAGE%d]\nstage-weight=%r\n' % (i, c['weights'][i]))
+                if c.get('executables') and i % 2 == 0:
+                    f.write('executable=echo\narguments=status of stage %d\n' % i)
+                f.write('\n')
         try:
             conf = experiment.model.conf.ExperimentConfigurationFactory.configurationForExperiment(
                 pkg, createInstanceFiles=False, updateInstanceFiles=False, primitive=False)
@@ -609,7 +614,7 @@ def replay(ctx, case):
         ctx.payload = []
         return
     if case['part'] == 'A-dosini':
-        check_dosini(ctx, {k: case[k] for k in ('n', 'weights', 'order', 'omit')})
+        check_dosini(ctx, {k: case[k] for k in ('n', 'weights', 'order', 'omit', 'executables') if k in case})
         return
     if case['part'] == 'A':
         check_part_a(ctx, from_jsonable(case['weights']), case.get('family', 'replay'))
